@@ -197,6 +197,7 @@ func PropC13(c *vs.Case, f Factory, kind string) error {
 	}
 	base := validFor(which)
 	bb, _ := json.Marshal(base)
+	mutatedPath := ""
 	switch mode {
 	case 0: // one field replaced by a hostile value
 		paths := mutationPaths(kind)
@@ -220,6 +221,7 @@ func PropC13(c *vs.Case, f Factory, kind string) error {
 		nb, _ := json.Marshal(nd)
 		body = string(nb)
 		desc = fmt.Sprintf("%s := %s", p, v)
+		mutatedPath = p
 		c.Class("mutate-field")
 	case 1: // a field removed
 		paths := mutationPaths(kind)
@@ -295,6 +297,10 @@ func PropC13(c *vs.Case, f Factory, kind string) error {
 		}
 	} else {
 		c.Class("accepted")
+		// strict decoding: a field the response type does not know makes the whole answer unusable
+		if scn.Cfg.Strict && !customize && mutatedPath == "unknownField" && len(t.Hooks) > 0 {
+			return withTrace(vs.Violf("C13/strict-accepts-unknown-field", "strict response decoding is configured and hook %s answered with an unknown top-level field (%s), yet the sync accepted the answer", which, desc), t)
+		}
 	}
 	if customize {
 		// the (possibly cached) customize answer is also consulted from the related-object event
